@@ -295,3 +295,131 @@ theorem patIndex?_getD (P : List (List Nat)) (h : P.Nodup) (i : Nat) (hi : i < P
 
 
 end Gzx.OneD
+
+namespace Gzx.OneD
+open Gzx Gzx.CheckDigit
+
+/-! ## ITF helpers -/
+
+def WFITF (T : Tables) : Bool :=
+  T.itfWriter.length == 10 && T.itfWriter.all (fun p => p.length == 5 && p.all (0 < ·)) &&
+  decide T.itfWriter.Nodup &&
+  T.itfStart.length == 4 && T.itfStart.all (0 < ·) && T.itfEnd.length == 3 && T.itfEnd.all (0 < ·)
+
+theorem interleave_length (a b : List Nat) (h : a.length = b.length) : (interleave a b).length = 2 * a.length := by
+  induction a generalizing b with
+  | nil => cases b <;> simp [interleave]
+  | cons x xs ih =>
+    cases b with
+    | nil => simp at h
+    | cons y ys =>
+      simp only [List.length_cons, Nat.add_right_cancel_iff] at h
+      simp only [interleave, List.length_cons, ih ys h]; omega
+
+theorem interleave_mem (a b : List Nat) (x : Nat) (h : x ∈ interleave a b) : x ∈ a ∨ x ∈ b := by
+  induction a generalizing b with
+  | nil => cases b <;> simp [interleave] at h
+  | cons p ps ih =>
+    cases b with
+    | nil => simp [interleave] at h
+    | cons q qs =>
+      simp only [interleave, List.mem_cons] at h ⊢
+      rcases h with rfl | rfl | h
+      · exact Or.inl (Or.inl rfl)
+      · exact Or.inr (Or.inl rfl)
+      · rcases ih qs h with h | h
+        · exact Or.inl (Or.inr h)
+        · exact Or.inr (Or.inr h)
+
+theorem deinterleave_interleave (a b : List Nat) (h : a.length = b.length) : deinterleave (interleave a b) = (a, b) := by
+  induction a generalizing b with
+  | nil => cases b with
+    | nil => simp [interleave, deinterleave]
+    | cons y ys => simp at h
+  | cons x xs ih =>
+    cases b with
+    | nil => simp at h
+    | cons y ys =>
+      simp only [List.length_cons, Nat.add_right_cancel_iff] at h
+      simp [interleave, deinterleave, ih ys h]
+
+theorem itfPairs_mem (ds : List Nat) (p : Nat × Nat) (h : p ∈ itfPairs ds) : p.1 ∈ ds ∧ p.2 ∈ ds := by
+  match ds with
+  | [] => simp [itfPairs] at h
+  | [_] => simp [itfPairs] at h
+  | a :: b :: rest =>
+    simp only [itfPairs, List.mem_cons] at h
+    rcases h with rfl | h
+    · simp
+    · have := itfPairs_mem rest p h
+      exact ⟨by simp [this.1], by simp [this.2]⟩
+
+theorem itfPairs_flatten (ds : List Nat) (h : ds.length % 2 = 0) :
+    ((itfPairs ds).map (fun p => [p.1, p.2])).flatten = ds := by
+  match ds with
+  | [] => simp [itfPairs]
+  | [_] => simp at h
+  | a :: b :: rest =>
+    have h' : rest.length % 2 = 0 := by simp at h; omega
+    simp [itfPairs, itfPairs_flatten rest h']
+
+theorem all_getD (P : List (List Nat)) (f : List Nat → Bool) (h : P.all f = true) (i : Nat) (hi : i < P.length) :
+    f (P.getD i []) = true := by
+  have : P.getD i [] = P[i] := by simp [List.getD_eq_getElem?_getD, List.getElem?_eq_getElem hi]
+  rw [this]; exact List.all_eq_true.mp h _ (List.getElem_mem hi)
+
+
+theorem digitVals_roundtrip (bs : List Nat) (h : allDigits bs = true) : (digitVals bs).map (· + 48) = bs := by
+  induction bs with
+  | nil => rfl
+  | cons b bs ih =>
+    simp only [allDigits, List.all_cons, Bool.and_eq_true] at h
+    have hb := h.1
+    simp only [isDigitByte, Bool.and_eq_true, decide_eq_true_eq] at hb
+    have := ih h.2
+    simp only [digitVals, List.map_cons, List.map_map] at this ⊢
+    rw [this]; congr 1; omega
+
+theorem digitVals_lt (bs : List Nat) (h : allDigits bs = true) : ∀ d ∈ digitVals bs, d < 10 := by
+  intro d hd
+  simp only [digitVals, List.mem_map] at hd
+  obtain ⟨b, hb, rfl⟩ := hd
+  have := List.all_eq_true.mp h b hb
+  simp only [isDigitByte, Bool.and_eq_true, decide_eq_true_eq] at this
+  omega
+
+end Gzx.OneD
+
+namespace Gzx.OneD
+open Gzx Gzx.CheckDigit
+
+/-! ## alphabet lookups -/
+
+theorem alphaIndex_nth (A : List Nat) (c i : Nat) (h : alphaIndex A c = .ok i) : nth A i = .ok c := by
+  unfold alphaIndex at h
+  split at h
+  · rename_i j hj
+    cases h
+    simp [nth, indexOf?_get hj]
+  · cases h
+
+theorem mapM_alphaIndex_nth (A : List Nat) (l syms : List Nat) (h : l.mapM (alphaIndex A) = .ok syms) :
+    syms.mapM (nth A) = .ok l := by
+  induction l generalizing syms with
+  | nil =>
+    simp only [List.mapM_nil, pure, Except.pure] at h
+    cases h; rfl
+  | cons c cs ih =>
+    simp only [List.mapM_cons, bind, Except.bind] at h
+    split at h
+    · cases h
+    · rename_i i hi
+      split at h
+      · cases h
+      · rename_i rest hrest
+        simp only [pure, Except.pure] at h
+        cases h
+        simp only [List.mapM_cons, alphaIndex_nth A c i hi, ih rest hrest, bind, Except.bind, pure, Except.pure]
+
+
+end Gzx.OneD
